@@ -2,6 +2,10 @@ package checks
 
 import (
 	"fmt"
+	"os"
+	"path/filepath"
+	"sort"
+	"strings"
 
 	"verif/internal/hist"
 	"verif/internal/vc"
@@ -105,5 +109,85 @@ func c01TradeScenarios(c *Ctx) {
 			box.Remove()
 			cl.Remove()
 		}
+	}
+}
+
+// c02MissingInput: a target that declares a literal input which does not exist (an optional file), followed in sort
+// order by inputs that are edited WITHOUT changing their size. History: build; build (nothing executes); same-size edit
+// of the last input; same-size edit of the middle input; create the optional file; build (nothing executes). The target
+// and its dependant execute exactly after each change, and what they copy is the current content.
+func c02MissingInput(c *Ctx) {
+	grog, err := vc.BuildGrog("grog", nil)
+	if err != nil {
+		c.R.BrokenCheck("%v", err)
+		return
+	}
+	base, cleanup := scratchBase(c, "c02missing")
+	defer cleanup()
+	mk := func(opt, b, d string) *hist.Source {
+		s := &hist.Source{Files: map[string]hist.File{"p/b_config.txt": {Content: b}, "p/c_data.txt": {Content: d}}}
+		if opt != "" {
+			s.Files["p/a_optional.txt"] = hist.File{Content: opt}
+		}
+		s.Targets = append(s.Targets,
+			hist.Target{Pkg: "p", Name: "gen", Inputs: []string{"a_optional.txt", "b_config.txt", "c_data.txt"}, Outputs: []string{"gen.out"}, Command: traceStart + "\n(if [ -e a_optional.txt ]; then cat a_optional.txt; fi; cat b_config.txt c_data.txt) > gen.out"},
+			hist.Target{Pkg: "p", Name: "use", Deps: []string{":gen"}, Outputs: []string{"use.out"}, Command: traceStart + "\ncat gen.out > use.out"})
+		return s
+	}
+	type step struct {
+		name string
+		src  *hist.Source
+		want string
+		out  string
+	}
+	steps := []step{
+		{"build", mk("", "config-1", "data-v1"), "//p:gen //p:use", "config-1data-v1"},
+		{"build again", mk("", "config-1", "data-v1"), "", "config-1data-v1"},
+		{"same-size edit of c_data.txt; build", mk("", "config-1", "data-v2"), "//p:gen //p:use", "config-1data-v2"},
+		{"same-size edit of b_config.txt; build", mk("", "config-2", "data-v2"), "//p:gen //p:use", "config-2data-v2"},
+		{"create a_optional.txt; build", mk("opt", "config-2", "data-v2"), "//p:gen //p:use", "optconfig-2data-v2"},
+		{"build again", mk("opt", "config-2", "data-v2"), "", "optconfig-2data-v2"},
+	}
+	for _, mode := range []string{"all", "minimal"} {
+		box, err := hist.NewBox(base)
+		if err != nil {
+			c.R.BrokenCheck("%v", err)
+			return
+		}
+		var prev *hist.Source
+		var history []string
+		for _, st := range steps {
+			st.src.Materialize(box.WS(), prev)
+			prev = st.src
+			history = append(history, st.name)
+			rr := box.Run(grog, hist.RunOpts{Args: []string{"build", "//...", "--load-outputs=" + mode}, Ceiling: 60e9})
+			got := append([]string{}, rr.Started()...)
+			sort.Strings(got)
+			replay := map[string]any{"history": history, "load_outputs": mode, "executed": got, "grog_output_tail": tail(rr.Output, 500)}
+			bad := true
+			switch {
+			case rr.Exit != 0:
+				c.R.Violate(vc.Violation{Sig: "C02:missing-input:build-fails", Detail: fmt.Sprintf("history %v (load_outputs=%s): grog exited %d: %s", history, mode, rr.Exit, tail(rr.Output, 300)), Replay: replay})
+			case strings.Join(got, " ") != st.want && len(got) < len(strings.Fields(st.want)):
+				c.R.Violate(vc.Violation{Sig: "C02:missing-input:input-edit-not-noticed", Detail: fmt.Sprintf("history %v (load_outputs=%s): executed %v, expected [%s] (//p:gen declares a_optional.txt, b_config.txt, c_data.txt; the first one does not exist at first)", history, mode, got, st.want), Replay: replay})
+			case strings.Join(got, " ") != st.want:
+				c.R.Violate(vc.Violation{Sig: "C02:missing-input:executed-although-nothing-changed", Detail: fmt.Sprintf("history %v (load_outputs=%s): executed %v, expected [%s]", history, mode, got, st.want), Replay: replay})
+			default:
+				bad = false
+				if len(got) > 0 {
+					if b, _ := os.ReadFile(filepath.Join(box.WS(), "p/use.out")); string(b) != st.out {
+						c.R.Violate(vc.Violation{Sig: "C02:missing-input:stale-output", Detail: fmt.Sprintf("history %v (load_outputs=%s): p/use.out is %q, expected %q", history, mode, b, st.out), Replay: replay})
+						bad = true
+					}
+				}
+			}
+			c.R.AddCounts(1, 1, 1, 1)
+			c.R.Outcome(fmt.Sprintf("missing-input|%s|%s|%v", mode, st.name, got))
+			c.R.Nontrivial("missing-input|" + mode + "|" + strings.Join(history, ">"))
+			if bad {
+				break
+			}
+		}
+		box.Remove()
 	}
 }
